@@ -81,27 +81,104 @@ FUNC_KINDS = {
 }
 
 
+ROUTE = [0]         # per-case counter the model does not see (reset at `#`): which spelling of an operation answers
+
+
+def pairwise_routes(kind, ds, a, b):
+    """the same pairwise value through the other spellings the API offers: sketch level instead of signature level,
+    frozen copies, positional instead of keyword arguments, jaccard() for ignore_abundance=True"""
+    ds = bool(ds)
+    ma, mb = a.minhash, b.minhash
+    fa, fb = a.to_frozen(), b.to_frozen()
+    r = [lambda: pairwise(kind, ds, a, b), lambda: pairwise(kind, ds, fa, fb)]
+    if kind == "sim0":
+        r += [lambda: ma.similarity(mb, ignore_abundance=False, downsample=ds), lambda: a.similarity(b, False, ds)]
+    elif kind == "sim1":
+        r += [lambda: ma.similarity(mb, ignore_abundance=True, downsample=ds), lambda: ma.jaccard(mb, downsample=ds)]
+        if not ds:
+            r.append(lambda: a.jaccard(b))
+    elif kind == "jani":
+        r += [lambda: ma.jaccard_ani(mb, downsample=ds).ani, lambda: a.jaccard_ani(b, downsample=ds, prob_threshold=1e-3, err_threshold=1e-4).ani]
+    elif kind == "cont":
+        r += [lambda: ma.contained_by(mb, downsample=ds), lambda: a.contained_by(b, ds)]
+    elif kind == "cani":
+        r += [lambda: ma.containment_ani(mb, downsample=ds).ani, lambda: a.containment_ani(b, downsample=ds, confidence=0.95, estimate_ci=False).ani]
+    elif kind == "maxc":
+        r += [lambda: ma.max_containment(mb, downsample=ds), lambda: a.max_containment(b, ds)]
+    elif kind == "maxani":
+        r += [lambda: ma.max_containment_ani(mb, downsample=ds).ani]
+    elif kind == "avgc":
+        r += [lambda: ma.avg_containment(mb, downsample=ds)]
+    elif kind == "avgani":
+        r += [lambda: ma.avg_containment_ani(mb, downsample=ds)]
+    return r
+
+
+def _tok(f):
+    try:
+        v = f()
+        return "N" if v is None else bits(v)
+    except Exception as e:      # noqa: BLE001
+        return "E" + exc_name(e)
+
+
 def table(sigs, kind, ds):
+    """every third cell is evaluated through ALL spellings (they must agree: `ROUTES-DIFFER` otherwise), the others through
+    the spelling whose turn it is"""
     toks = []
-    for a in sigs:
-        for b in sigs:
-            try:
-                v = pairwise(kind, ds, a, b)
-                toks.append("N" if v is None else bits(v))
-            except Exception as e:      # noqa: BLE001
-                toks.append("E" + exc_name(e))
+    for i, a in enumerate(sigs):
+        for j, b in enumerate(sigs):
+            ROUTE[0] += 1
+            routes = pairwise_routes(kind, ds, a, b)
+            if (i + j + ROUTE[0]) % 3 == 0:
+                vals = [_tok(f) for f in routes]
+                toks.append(vals[0] if len(set(vals)) == 1 else "ROUTES-DIFFER(" + "/".join(vals) + ")")
+            else:
+                toks.append(_tok(routes[ROUTE[0] % len(routes)]))
     return toks
+
+
+def matrix_views(M, m, symmetric):
+    """whatever can be read about the returned matrix in two ways must agree: element access spellings, a copy, the
+    np.save / np.load round trip `sourmash compare -o` relies on, the transpose of a symmetric measure"""
+    import io
+    import numpy as np
+    ref = [bits(M[i][j]) for i in range(m) for j in range(m)]
+    diff = []
+
+    def same(name, vals):
+        if vals != ref:
+            diff.append(name)
+    same("M[i, j]", [bits(M[i, j]) for i in range(m) for j in range(m)])
+    same("M.tolist()", [bits(x) for row in M.tolist() for x in row])
+    same("numpy.array(M)", [bits(x) for x in np.array(M).flatten()])
+    buf = io.BytesIO()
+    np.save(buf, M)
+    buf.seek(0)
+    same("numpy.load(numpy.save(M))", [bits(x) for x in np.load(buf).flatten()])
+    if symmetric:
+        same("M.T", [bits(M.T[i][j]) for i in range(m) for j in range(m)])
+    same("second read", [bits(M[i][j]) for i in range(m) for j in range(m)])
+    return diff
 
 
 def run_compare(func, kind, ds, jobs, siglist):
     ds = bool(ds)
     ani = kind in ("jani", "cani", "maxani", "avgani")
     ia = kind == "sim1"
+    ROUTE[0] += 1
+    alt = ROUTE[0] % 2 == 1        # alternate spellings: keyword / positional arguments, list / tuple of signatures
     if func == "serial":
+        if alt:
+            return smc.compare_serial(tuple(siglist), ignore_abundance=ia, downsample=ds, return_ani=ani)
         return smc.compare_serial(siglist, ia, downsample=ds, return_ani=ani)
     if func == "parallel":
+        if alt:
+            return smc.compare_parallel(siglist=siglist, ignore_abundance=ia, downsample=ds, n_jobs=jobs, return_ani=ani)
         return smc.compare_parallel(siglist, ia, ds, jobs, return_ani=ani)
     if func == "allpairs":
+        if alt:
+            return smc.compare_all_pairs(siglist, ia, ds, jobs, ani)
         return smc.compare_all_pairs(siglist, ia, downsample=ds, n_jobs=jobs, return_ani=ani)
     if func == "containment":
         return smc.compare_serial_containment(siglist, downsample=ds, return_ani=ani)
@@ -156,6 +233,7 @@ def main():
                 sigs = []
                 tabs = set()
                 kept = []
+                ROUTE[0] = 0
                 res = "#"
             elif w[0] == "sig" and len(w) == 6:
                 idx, scaled, track, ksize = (int(x) for x in w[1:5])
@@ -200,6 +278,15 @@ def main():
                             snap = [bits(M[i][j]) for i in range(m) for j in range(m)]
                             res = f"mat {m} " + " ".join(snap)
                             kept.append((line.strip(), M, m, snap))
+                            vd = matrix_views(M, m, func != "containment")
+                            if func not in ("parallel", "allpairs") and ROUTE[0] % 3 == 0:
+                                # read-only entry point called twice on the same objects
+                                M2 = run_compare(func, kind, ds, jobs, siglist)
+                                if [bits(M2[i][j]) for i in range(m) for j in range(m)] != snap:
+                                    vd.append("second call on the same list")
+                                kept.append((line.strip() + " (second call)", M2, m, snap))
+                            if vd:
+                                res += " views=DIFF:" + ",".join(vd)
                     except Exception as e:      # noqa: BLE001
                         res = "err " + exc_name(e)
                         reap(e)
@@ -209,7 +296,7 @@ def main():
             elif w[0] == "recheck" and len(w) == 1:
                 # results are values: no later call may change a matrix that was returned earlier
                 changed = [op for op, M, m, snap in kept if [bits(M[i][j]) for i in range(m) for j in range(m)] != snap]
-                res = f"recheck {len(kept)} " + ("unchanged" if not changed else "CHANGED " + " | ".join(changed[:3]))
+                res = f"recheck {sum(1 for x in kept if not x[0].endswith('(second call)'))} " + ("unchanged" if not changed else "CHANGED " + " | ".join(changed[:3]))
         except (ValueError, IndexError, KeyError):
             res = "bad-op"
         out.write(res + "\n")
